@@ -1,4 +1,4 @@
-//@unit c11_flags props=C11,C12 widths=u32
+//@unit c11_flags props=C11,C12,C09 widths=u32
 //@use prelude/head.rs
 
 // The flags of a lexer definition: the merge of the flags given (by a %grmtools section or by the builder) with the
